@@ -24,6 +24,7 @@ def run(rep):
                     'exp(ln(max_step_size)) <= max_step_size in FP64 (one-ulp question)']
     dual_average(rep, mir, L)
     adam(rep, mir, L)
+    estimator_feed(rep, mir, L)
     collector(rep, mir, L)
     validate(rep, mir, L)
     from ..driver import parts
@@ -148,6 +149,68 @@ def adam(rep, mir, L):
     verdict, model = rep.check('C07.4d Adam current_step_size = exp(log_step) > 0', pre + [A.uf['exp'](g('log_step').v) > 0, z3.Or(step.v != A.uf['exp'](g('log_step').v), step.v <= 0)])
     if verdict == 'violated': rep.violated('C07.4d', 'adam.css', 'Adam step size not exp(log_step)', model_to_json(model))
     rep.absorb_vm(vm)
+
+# ------------------------------------------------------------------------------------------------
+def estimator_feed(rep, mir, L):
+    """C07.7: Strategy::update_estimator_early / _late hand the estimator in use (dual averaging or Adam) the asymmetric (early) resp. the symmetric
+    (late) acceptance statistic of the last trajectory as the statistic and target_accept as the target - decided differentially: the post-state
+    of the call site equals the post-state of the estimator's own advance(statistic, target) from the same symbolic pre-state."""
+    from ..mathenv import install_misc
+    t0_ = time.time(); bad = []; n = 0
+    for which, statname in (('update_estimator_early', 'last_mean_tree_accept'), ('update_estimator_late', 'last_sym_mean_tree_accept')):
+        for method in ('DualAverage', 'Adam', 'Fixed'):
+            A = RealAlg(); vm = VM(mir, A); install_misc(vm); vm.enums.setdefault('Either', ['Left', 'Right'])
+            R = A.fresh; I = z3.Int
+            da_opts = L.make('DualAverageOptions', {'k': R('k'), 't0': R('t0'), 'gamma': R('gamma'), 'max_step_size': R('max_step')})
+            adam_opts = L.make('AdamOptions', {'beta1': R('beta1'), 'beta2': R('beta2'), 'epsilon': R('adam_eps'), 'learning_rate': R('lr')})
+            en = vm.enums['StepSizeAdaptMethod']
+            meth = Enum(en.index('Fixed'), 'Fixed', (R('fixed_val'),), 'StepSizeAdaptMethod') if method == 'Fixed' else Enum(en.index(method), method, (), 'StepSizeAdaptMethod')
+            ao = L.make('StepSizeAdaptOptions', {'method': meth, 'dual_average': da_opts, 'adam': adam_opts})
+            ss = L.make('StepSizeSettings', {'target_accept': R('target'), 'initial_step': R('initial_step'), 'jitter': NONE(), 'adapt_options': ao})
+            if method == 'DualAverage':
+                inner = L.make('DualAverage', {'log_step': R('log_step'), 'log_step_adapted': R('log_step_adapted'), 'hbar': R('hbar'), 'mu': R('mu'), 'count': I('da_count'), 'settings': da_opts})
+                adaptation = SOME(Enum(0, 'Left', (inner,), 'Either')); ty = 'DualAverage'; fields = ('log_step', 'log_step_adapted', 'hbar', 'mu', 'count')
+            elif method == 'Adam':
+                inner = L.make('Adam', {'log_step': R('log_step'), 'm': R('adam_m'), 'v': R('adam_v'), 't': I('adam_t'), 'settings': adam_opts})
+                adaptation = SOME(Enum(1, 'Right', (inner,), 'Either')); ty = 'Adam'; fields = ('log_step', 'm', 'v', 't')
+            else: inner = None; adaptation = NONE()
+            strat = L.make('Strategy', {'adaptation': adaptation, 'options': ss, 'last_mean_tree_accept': R('last_mean'), 'last_sym_mean_tree_accept': R('last_sym'),
+                                        'last_n_steps': I('old_nsteps'), 'last_max_energy_error': R('old_maxerr')}, file='stepsize')
+            pre = [I('da_count') >= 1, I('da_count') < 2 ** 40, I('adam_t') >= 0, I('adam_t') < 2 ** 31 - 1, I('old_nsteps') >= 0, I('old_nsteps') < 2 ** 40,
+                   z3.Real('last_mean') >= 0, z3.Real('last_mean') <= 1, z3.Real('last_sym') >= 0, z3.Real('last_sym') <= 1, z3.Real('target') > 0, z3.Real('target') < 1,
+                   z3.Real('last_mean') != z3.Real('last_sym'), z3.Real('last_mean') != z3.Real('target'), z3.Real('last_sym') != z3.Real('target')]
+            fn = mir.method('Strategy', None, which, file='stepsize')
+            m = Machine(); m.pc = list(pre); c = m.alloc(strat)
+            res = vm.run(fn, [Ref(c)], m); rep.paths += len(res); n += 1
+            if len(res) != 1 or res[0][1] != 'ret':
+                bad.append('%s [%s]: %d outcomes, %r' % (which, method, len(res), [(k, str(v)[:80]) for (_, k, v) in res][:2])); continue
+            m1 = res[0][0]; post = m1.mem[c]
+            if method == 'Fixed':
+                if repr(post) != repr(strat): bad.append('%s [Fixed]: the strategy state changes although no estimator is in use' % which)
+                continue
+            ad_post = L.get('Strategy', post, 'adaptation', file='stepsize')
+            got = ad_post.f[0].f[0] if isinstance(ad_post, Enum) and ad_post.name == 'Some' else None
+            if got is None: bad.append('%s [%s]: estimator dropped' % (which, method)); continue
+            # reference: the estimator's own advance on the same pre-state, fed (statistic, target)
+            adv = mir.method(ty, None, 'advance'); m2 = Machine(); m2.pc = list(pre); c2 = m2.alloc(inner)
+            stat = R('last_mean') if statname == 'last_mean_tree_accept' else R('last_sym')
+            ref = vm.run(adv, [Ref(c2), stat, R('target')], m2)
+            if len(ref) != 1 or ref[0][1] != 'ret': bad.append('%s::advance: %d outcomes' % (ty, len(ref))); continue
+            want = ref[0][0].mem[c2]
+            diffs = []
+            for f in fields:
+                a, b = L.get(ty, got, f), L.get(ty, want, f); a = getattr(a, 'v', a); b = getattr(b, 'v', b)
+                diffs.append(a != b)
+            # uninterpreted functions are congruent, so syntactically different but equal terms are decided by the solver
+            verdict, model = rep.check('C07.7 %s [%s]: the estimator receives (%s, target_accept)' % (which, method, statname), pre + m1.pc + ref[0][0].pc + [z3.Or(*diffs)], timeout_ms=60000)
+            if verdict == 'violated':
+                bad.append('%s [%s]: the estimator is not advanced with (%s, target_accept): %s' % (which, method, statname, str(model_to_json(model))[:300]))
+            # the other fields of the strategy are untouched
+            for f in ('last_mean_tree_accept', 'last_sym_mean_tree_accept', 'last_n_steps', 'last_max_energy_error'):
+                if repr(L.get('Strategy', post, f, file='stepsize')) != repr(L.get('Strategy', strat, f, file='stepsize')): bad.append('%s [%s]: field %s changes' % (which, method, f))
+            rep.absorb_vm(vm)
+    if bad: rep.violated('C07.7 estimator call sites', 'estimator.feed', '; '.join(bad))
+    else: rep.holds('C07.7 update_estimator_early/late feed the estimator in use (DualAverage, Adam; none for Fixed) with (asymmetric resp. symmetric statistic, target_accept) - differential against the estimator\'s own advance (%d call sites)' % n, time.time() - t0_)
 
 # ------------------------------------------------------------------------------------------------
 def collector(rep, mir, L):
